@@ -21,7 +21,7 @@ def _pick_inputs(rng, pool, k, mode_weights):
     return ins
 
 
-def gen_spec(rng, name, klass="free", size=None):
+def gen_spec(rng, name, klass="free", size=None, n_mws=None, own_stress=False):
     """Types T0..Tn-1; type i is built by constructor i from types with a smaller index (a DAG)."""
     n = size or rng.randrange(3, 9)
     inclass = klass != "free"
@@ -29,9 +29,9 @@ def gen_spec(rng, name, klass="free", size=None):
     for i in range(n):
         r = rng.random()
         t = {"i": i, "clone": False, "copy": False, "cap": None}
-        if r < 0.15:
+        if r < (0.05 if own_stress else 0.15):
             t["clone"] = t["copy"] = True
-        elif r < 0.5:
+        elif r < (0.9 if own_stress else 0.5):
             t["clone"] = True
         types.append(t)
     ctors = []
@@ -39,12 +39,12 @@ def gen_spec(rng, name, klass="free", size=None):
     usage = {}
     for i in range(n):
         t = types[i]
-        life = rng.choices(["request", "singleton", "transient"], weights=[6, 2, 2])[0]
+        life = rng.choices(["request", "singleton", "transient"], weights=[16, 1, 2] if own_stress else [6, 2, 2])[0]
         pool = list(range(i))
         if life == "singleton":
             pool = [j for j in pool if ctors[j]["life"] == "singleton"]
-        k = min(len(pool), rng.choice([0, 0, 1, 1, 2, 2, 3]))
-        cloning = t["clone"] and rng.random() < 0.6
+        k = min(len(pool), rng.choice([1, 2, 2, 3] if own_stress else [0, 0, 1, 1, 2, 2, 3]))
+        cloning = t["clone"] and rng.random() < (0.9 if own_stress else 0.6)
         c = {"i": i, "out": i, "life": life, "cloning": cloning, "ins": [], "fallible": False,
              "async": rng.random() < 0.3}
         ctors.append(c)
@@ -87,7 +87,7 @@ def gen_spec(rng, name, klass="free", size=None):
                     c["ins"].append([j, m])
         else:
             # constructors never take `&mut` (a documented rule); ownership shape is free
-            c["ins"] = _pick_inputs(rng, pool, k, [5, 5, 0])
+            c["ins"] = _pick_inputs(rng, pool, k, [8, 3, 0] if own_stress else [5, 5, 0])
             for x in c["ins"]:
                 if x[1] == "val" and ctors[x[0]]["life"] == "singleton" and not (ctors[x[0]]["cloning"] or types[x[0]]["copy"]):
                     x[1] = "ref"
@@ -117,7 +117,9 @@ def gen_spec(rng, name, klass="free", size=None):
                 if m:
                     ins.append([j, m])
             return ins
-        ins = _pick_inputs(rng, range(n), k, [5, 5, 1.0 if allow_mut else 0.0])
+        if own_stress:
+            k = rng.choice([2, 3, 4])
+        ins = _pick_inputs(rng, range(n), k, [8, 3, 0.5] if own_stress else [5, 5, 1.0 if allow_mut else 0.0])
         for x in ins:
             # `&mut` only where the rules allow it: request-scoped, never-clone
             if x[1] == "mut" and not (ctors[x[0]]["life"] == "request" and not ctors[x[0]]["cloning"]):
@@ -140,7 +142,7 @@ def gen_spec(rng, name, klass="free", size=None):
                 if usage[j] == "moved" and m == "val":
                     moved_owner.setdefault(j, ("h", -1))
     mws = []
-    for m in range(rng.choice([0, 1, 2, 3, 4, 5])):
+    for m in range(rng.choice([0, 1, 2, 3, 4, 5]) if n_mws is None else n_mws):
         kind = rng.choice(["wrap", "pre", "post"])
         mws.append({"i": m, "kind": kind, "ins": comp_inputs("m", m, True), "fallible": rng.random() < 0.1})
     observers = []
